@@ -472,7 +472,7 @@ func nestingDepth(bs []*ref.Block) int {
 // default fence, with trailing spaces (still a closing fence), with leading
 // indentation (0-3 columns still close a fence, 4 do not), with an info-like
 // tail (cannot close), container markers, tabs, blank lines.
-var codeLineMenu = []string{"a", "", "```", "``` ", "````", "~~~", "~~~  ", " ```", "   ~~~~", "    ```", "```a", "> a", "- b", "\ta", "  b  ", "<b>&amp;*c*"}
+var codeLineMenu = []string{"a", "", "  ", "```", "``` ", "````", "~~~", "~~~  ", " ```", "   ~~~~", "    ```", "```a", "> a", "- b", "\ta", "  b  ", "<b>&amp;*c*"}
 
 func codeContentLeaf(x *X, maxLines int) *ref.Block {
 	b := &ref.Block{Kind: ref.BFenced}
